@@ -27,6 +27,8 @@ _raw_conflicts — is accepted by the bzr cooker (CONFLICT_COOKERS keys or types
 3-tuples mapping to (action, path, file_id) constructors and 4-tuples to path-pair constructors) and, for kinds the git
 transform can emit or merge.py records, by the literal dispatch chain of the git cook_conflicts (which raises on an
 unknown kind).
+Added while testing against seeded changes: R3 the raw-conflict finders and path bookkeeping cloned between
+bzr/transform.py and git/transform.py have equal effect signatures.
 Does not decide: preview/apply equality (tree values) — not applicable to static analysis.
 """
 
